@@ -15,5 +15,5 @@ HARNESSES = [
 ASSUMPTIONS = ['gate words: 0, ~0 (DONE), or a thread id (30 bits, != caller) optionally with the waiters bit; other callers may move the word along the gate protocol (enter from 0, add waiters bit, publish DONE) at most twice',
                'futex wait returns at arbitrary moments (spurious wake-ups included) and the owner may have published DONE meanwhile; at most 3 sleeps',
                'the quiescent-counter variant of dispatch_once is not compiled on this platform']
-LEVEL_TEXT = 'placeholder'
-LEVEL_NOTE = 'placeholder'
+LEVEL_TEXT = 'Tier S over all legal gate words with <=2 interfering updates along the gate protocol and <=3 sleeps: the initialiser runs only while the caller owns the gate obtained by a CAS from 0, at most once; DONE is published with release; sleepers are woken (all of them) exactly when the waiters bit was set; non-owners return only on DONE; every sleep is on a value carrying the waiters bit; the inline fast path of dispatch/once.h (compiled as a client would) skips the call exactly for the DONE value the library publishes.'
+LEVEL_NOTE = 'Gate protocol envelope for other threads as documented in lock.h; futex may return spuriously; quiescent-counter variant not compiled on this platform.'
